@@ -32,7 +32,7 @@ def unrandomize_255(v, pos):
 
 def decode(cw):
     out = bytearray()
-    res = dict(data=None, modes=[], eci=[], macro=None, fnc1=False, pad_start=None, error=None, segments=[], implicit=[])
+    res = dict(data=None, modes=[], eci=[], macro=None, fnc1=False, pad_start=None, error=None, segments=[], implicit=[], spans=[])
     n = len(cw)
     i = 0
     trailer = b''
@@ -100,6 +100,7 @@ def decode(cw):
                 else:
                     i = _base256(cw, i, out, res['implicit'])
                 res['segments'].append((mode, len(out) - start_out))
+                res['spans'].append((mode, start_out, len(out)))
             else:
                 raise Bad('codeword %d is not allowed in ASCII mode' % c)
         if upper:
